@@ -51,6 +51,34 @@ def known_findings():
     return out
 
 
+def run_scenario(script, args=(), timeout=150):
+    """Run a replay scenario on the real code of the tree under check.  Returns (failed: bool, tail of output)."""
+    env = dict(os.environ)
+    env['PYTHONPATH'] = os.path.dirname(REPO_SRC)
+    env.pop('MPSERVICE_VERIF', None)
+    path = os.path.join(HERE, script)
+    try:
+        p = subprocess.run([VENV_PY, path, *map(str, args)], capture_output=True, text=True, timeout=timeout, env=env, cwd='/')
+        out = (p.stdout[-1500:] + '\n' + p.stderr[-2500:]).strip()
+        return p.returncode != 0, out, [VENV_PY, path, *map(str, args)]
+    except subprocess.TimeoutExpired as e:
+        return True, f'timeout after {timeout}s (hang)', [VENV_PY, path, *map(str, args)]
+
+
+def replay_with_scenarios(mod, obligation_name, rec):
+    """Try the module's scenarios whose key matches the failed obligation; True if one fails on the real code."""
+    for key, script, *rest in getattr(mod, 'SCENARIOS', ()):
+        if key and key not in obligation_name:
+            continue
+        failed, out, cmd = run_scenario(script, rest[0] if rest else ())
+        rec.setdefault('scenarios_tried', []).append({'cmd': cmd, 'failed': failed, 'output_tail': out[-1200:]})
+        if failed:
+            rec['scenario'] = cmd
+            rec['observed'] = out[-1500:]
+            return True
+    return False
+
+
 def check_repo_import():
     """The interpreter that runs the code imports mpservice from the directory whose files we verify."""
     try:
@@ -186,15 +214,35 @@ def run_property(pid, tier, seed):
         rec = {'property': pid, 'obligation': o.name, 'unit': o.unit, 'trace_lines': o.trace[-40:], 'model': o.model,
                'solver': o.backend, 'ms': o.ms, 'smt2': solve.smt2_of(o)[:20000]}
         reproduced = None
-        replayer = getattr(mod, 'replay', None)
-        if replayer is not None:
-            try:
+        try:
+            replayer = getattr(mod, 'replay', None)
+            if replayer is not None:
                 reproduced = replayer(o, rec)
-            except Exception as e:     # replay trouble must never hide the violation
-                rec['replay_error'] = repr(e)
+            if not reproduced:
+                reproduced = replay_with_scenarios(mod, o.name, rec)
+        except Exception as e:     # replay trouble must never hide the violation
+            rec['replay_error'] = repr(e)
         rec['reproduced_on_real_code'] = bool(reproduced)
         json.dump(rec, open(path, 'w'), indent=1, default=str)
         replay_paths.append((o, path, reproduced))
+
+    # ---- dynamic fallback (DESIGN 2.5): undecided units -> run the scenarios on the real code; a failing run is a violation
+    battery = []
+    dyn_viol = []
+    if (undecided and not violations) or tier == 'thorough':
+        for key, script, *rest in getattr(mod, 'SCENARIOS', ()):
+            sc_failed, out, cmd = run_scenario(script, rest[0] if rest else ())
+            if sc_failed:      # re-run once: a scenario must fail twice to count (guards against a loaded machine)
+                sc_failed, out, cmd = run_scenario(script, rest[0] if rest else ())
+            battery.append({'cmd': ' '.join(cmd), 'failed': sc_failed})
+            if sc_failed:
+                d = os.path.join(HERE, 'replay', pid)
+                os.makedirs(d, exist_ok=True)
+                path = os.path.join(d, 'scenario_' + os.path.basename(script) + '.json')
+                json.dump({'property': pid, 'obligation': f'runtime scenario {script} (unit undecided or thorough battery)', 'scenario': cmd,
+                           'observed': out[-3000:], 'reproduced_on_real_code': True, 'undecided': [f'{n}: {w}' for n, w in undecided]},
+                          open(path, 'w'), indent=1)
+                dyn_viol.append((script, path))
 
     # ---- evidence
     functions = []
@@ -248,8 +296,9 @@ def run_property(pid, tier, seed):
         },
         'assumptions': sorted(getattr(mod, 'ASSUMPTIONS', ())),
         'wall_s': round(time.time() - t0, 2),
-        'violations': len(violations),
+        'violations': len(violations) + len(dyn_viol),
     }
+    ev['coverage']['runtime_scenarios'] = battery
     os.makedirs(os.path.join(HERE, 'evidence'), exist_ok=True)
     json.dump(ev, open(os.path.join(HERE, 'evidence', f'{pid}.json'), 'w'), indent=1, default=str)
 
@@ -267,11 +316,14 @@ def run_property(pid, tier, seed):
     for o, path, reproduced in replay_paths:
         print(f'   FAILED obligation: {o.name}\n      path lines: {o.trace[-16:]}\n      model: {json.dumps(o.model, default=str)[:600]}')
         print(f'VIOLATION property={pid} replay={path}' + ('' if reproduced else ' no-failing-input-found'))
+    for script, path in dyn_viol:
+        print(f'   runtime scenario {script} FAILS on the real code')
+        print(f'VIOLATION property={pid} replay={path}')
     for n, w in undecided:
         print(f'UNDECIDED property={pid} obligation={n} reason={w}')
     for e in engine_errors:
         print(f'ENGINE-ERROR property={pid} {e}')
-    if violations:
+    if violations or dyn_viol:
         return 1
     if engine_errors:
         return 3
